@@ -213,7 +213,11 @@ class IsarParser(object):
         content = content.encode('utf-8')
 
         def collect():
-            root = ElementTree.fromstring(content)
+            try:
+                root = ElementTree.fromstring(content)
+            except ValueError as e:
+                """ e.g. a declared encoding that expat cannot handle """
+                raise model.ParseError([(path, str(e))])
             for xml_elem in root.iterfind('.//*[@href]'):
                 yield make_include(xml_elem, process_file, self.warn)
 
